@@ -184,19 +184,28 @@ def run(tier, seed):
                     hc["got"] = [to_wire(x) for x in got][:6]
                     break
             elif op[0] == "b":
-                # copy whole blocks from a donor file of another codec
+                # copy whole blocks from a donor file of another codec; a caller may look at a block before copying it
+                # (iterate it, peek at its first record) and may copy one block into the output twice
                 dcodec = r.choice(list(CODECS))
+                look = r.choice(["fresh", "fresh", "iterated", "peeked", "twice"])
                 drecs = [good_record(g, s) if s["fields"] else {} for _ in range(r.randint(1, 4))]
                 dfo = io.BytesIO()
-                fastavro.writer(dfo, ps, drecs, codec=dcodec, sync_interval=r.choice([1, 1000]))
+                fastavro.writer(dfo, ps, drecs, codec=dcodec, sync_interval=(10 ** 6 if look == "twice" else r.choice([1, 1000])))
                 dfo.seek(0)
-                trace.append(["write_block", dcodec, len(drecs)])
+                trace.append(["write_block", dcodec, len(drecs), look])
                 for blk in fastavro.block_reader(dfo):
                     payload = blk.bytes_.getvalue()
                     n = blk.num_records
-                    w.write_block(blk)
-                    mops.append({"b": [n, payload.hex()]})
+                    if look == "iterated":
+                        list(blk)
+                    elif look == "peeked":
+                        next(iter(blk), None)
+                    for _ in range(2 if look == "twice" else 1):
+                        w.write_block(blk)
+                        mops.append({"b": [n, payload.hex()]})
                 submitted.extend(drecs)
+                if look == "twice":
+                    submitted.extend(drecs)
             elif op[0] == "reopen":
                 trace.append(["reopen"])
                 w.flush()
@@ -206,6 +215,23 @@ def run(tier, seed):
                            sync_marker=r.choice([b"", b"\x01" * 16]))
                 if r.random() < 0.5:
                     kw2["metadata"] = {"other": "meta"}
+                # wherever the stream happens to be positioned (anywhere but 0): a caller may have read the file first
+                where = r.choice(["end", "end", "after-reader", "after-some-records", "seek"])
+                trace[-1].append(where)
+                if where == "after-reader":
+                    fo.seek(0)
+                    fastavro.reader(fo)
+                    if fo.tell() == 0:
+                        fo.seek(0, 2)
+                elif where == "after-some-records":
+                    fo.seek(0)
+                    it = fastavro.reader(fo)
+                    for _ in range(r.randint(0, 2)):
+                        next(it, None)
+                    if fo.tell() == 0:
+                        fo.seek(0, 2)
+                elif where == "seek":
+                    fo.seek(r.randint(1, max(1, len(fo.getvalue()))))
                 try:
                     w = Writer(fo, other_schema, **kw2)
                 except Exception as e:  # noqa
